@@ -3,24 +3,28 @@ import CnlProofs.Charconv
 # C13 — `to_chars` never writes outside the caller's buffer and reports failure cleanly
 
 Model: `CnlModel.Charconv` (buffer = `(len, cells)`, an out-of-range write is the value `Res.oob`,
-a failed `CNL_ASSERT` is `Res.unreachable`).  The model follows the repaired code (three `fix:` commits,
-`findings/C13.json`); the unrepaired selection and loop are kept as `chooseOrig`, `descaleOrig`,
-`natResultOrig` and are *refuted* below by kernel-checked witnesses.
+a failed `CNL_ASSERT` is `Res.unreachable`).  The model follows the repaired code (six `fix:` commits,
+`findings/C13.json`); the unrepaired selection, loops, headroom test and negation are kept as `chooseOrig`,
+`descaleOrig`, `natResultOrig`, `intCapacityOrig`, `descaleTenOrig`, `intToCharsOrig`, `scaledToCharsTenOrig` and are
+*refuted* below by kernel-checked witnesses.
 
-Proved for every integer width, every value, every buffer length and every base 2…36:
+Proved for every integer width, EVERY value (the most negative one included, since the repair of the negative
+branch), every buffer length and every base 2…36:
 `integer_stays_inside`, `integer_succeeds_iff_numeral_fits`, `integer_never_out_of_bounds`,
 `integer_capacity_suffices`, `integer_static_succeeds` (the repaired `to_chars_capacity<integer>{}(base)`;
 the as-found, base-blind capacity is refuted by `static_capacity_unrepaired_refuted`); the layout selection (`layout_safe`, all digit counts, exponents, buffer sizes).
 
-For `scaled_integer` (every value, exponent, radix 2…10, buffer length; signed AND unsigned significand types):
+For `scaled_integer` (every value, exponent, buffer length, EVERY radix `≥ 2` — `10·radix ≤ max` of the significand
+type, which holds for every `int` radix: `radix_fits` —; signed AND unsigned significand types):
 `scaled_positive_routine`, `descale_terminates`, `descale_terminates_any`, `descale_returns`,
 `scaled_stays_inside`, `scaled_contract_unsigned` (= `FullScaledContractUnsigned`, formerly open).
 
 Capacity of `scaled_integer`: `scaled_capacity_suffices_partial` proves `FullScaledCapacity` for non-negative
 exponents (see its comment for the side condition at radix ten); negative exponents are covered by the
 correspondence sweep (`fix` lines at capacity: every value of 8-bit reps × exponents −70…70) and a model search only.
-Open findings: `MostNegative` (the most negative value of a ≥ 32-bit type: documented limitation) and
-`input_radix_above_ten` (`descale_radix_above_ten_refuted`).
+No open finding is left: `most_negative_integer` (`most_negative_unrepaired_refuted`) and `input_radix_above_ten`
+(`descale_radix_above_ten_refuted`, `radix_above_ten_witnesses`) are repaired; their theorems now speak of the
+as-found definitions.
 -/
 namespace Cnl.C13
 open Cnl Cnl.Charconv
@@ -28,53 +32,70 @@ open Cnl Cnl.Charconv
 /-- integers: on a buffer of `len` untouched cells the call returns normally; on success the pointer `p`
 satisfies `0 < p ≤ len`, cells `[0,p)` are written and `[p,len)` untouched; on failure the pointer is `last` -/
 theorem integer_stays_inside (T : IntTy) (len : Nat) (v : Int) (base : Nat)
-    (hb : 2 ≤ base ∧ base ≤ 36) (hm : ¬ MostNegative T v) (hu : T.signed = false → 0 ≤ v) :
+    (hb : 2 ≤ base ∧ base ≤ 36) (hu : T.signed = false → 0 ≤ v) :
     ∃ r, intToChars T (Buf.fresh len) v base = .ok r ∧ Contract len r :=
-  intToChars_contract T len v base hb hm hu
+  intToChars_contract T len v base hb hu
 
-example : ¬ MostNegative i32 (-2147483647) ∧ (i32.signed = false → (0 : Int) ≤ -2147483647) := by decide
+example : (2 ≤ 10 ∧ 10 ≤ 36) ∧ (i32.signed = false → (0 : Int) ≤ -2147483648) := by decide
 
 /-- it succeeds exactly when the canonical numeral fits -/
 theorem integer_succeeds_iff_numeral_fits (T : IntTy) (len : Nat) (v : Int) (base : Nat)
-    (hb : 2 ≤ base ∧ base ≤ 36) (hm : ¬ MostNegative T v) (hu : T.signed = false → 0 ≤ v) :
+    (hb : 2 ≤ base ∧ base ≤ 36) (hu : T.signed = false → 0 ≤ v) :
     ∃ r, intToChars T (Buf.fresh len) v base = .ok r ∧ r.ok = decide ((intText base v).length ≤ len) :=
-  intToChars_ok T len v base hb hm hu
+  intToChars_ok T len v base hb hu
 
-/-- no value at all — not even the unsupported most negative one — makes the integer routine write out of range -/
+example : (i64.signed = false → (0 : Int) ≤ -9223372036854775808) := by decide
+
+/-- no value at all makes the integer routine write out of range -/
 theorem integer_never_out_of_bounds (T : IntTy) (len : Nat) (v : Int) (base : Nat)
     (hb : 2 ≤ base ∧ base ≤ 36) (hu : T.signed = false → 0 ≤ v) (i : Nat) :
     intToChars T (Buf.fresh len) v base ≠ .oob i := by
-  by_cases hm : MostNegative T v
-  · have hbb : ¬ (base < 2 ∨ base > 36) := by omega
-    have hP : 0 ≤ (promote T).max := by
-      unfold IntTy.max
-      have h1 : (0 : Int) < 2 ^ ((promote T).bits - 1) := Int.pow_pos (by omega)
-      have h2 : (0 : Int) < 2 ^ (promote T).bits := Int.pow_pos (by omega)
-      split <;> omega
-    have hv : v ≠ 0 := by have := hm.2; omega
-    have hn : T.signed = true ∧ v < 0 := ⟨hm.1, by have := hm.2; omega⟩
-    unfold intToChars
-    rw [if_neg hbb, if_neg hv, if_pos hn]
-    by_cases hl : (Buf.fresh len).len < 2
-    · rw [if_pos hl]; intro h; cases h
-    · have h0 : 0 < (Buf.fresh len).len := by omega
-      rw [if_neg hl]
-      simp only [Buf.write, h0, if_true, hm.2]
-      intro h; cases h
-  · obtain ⟨r, hr, _⟩ := intToChars_contract T len v base hb hm hu
-    rw [hr]; intro h; cases h
+  obtain ⟨r, hr, _⟩ := intToChars_contract T len v base hb hu
+  rw [hr]; intro h; cases h
 
-/-- `to_chars_capacity<T>{}(base)` cells are enough for every supported value of `T` (any width) in EVERY base
+/-- the repaired negative branch (`quotient = value / base`, `-quotient`, `quotient * base`,
+`value - quotient * base` and its negation) never leaves the type the arithmetic is done in: for every negative
+value of a type `P` — the most negative one included — and every base `2 ≤ base ≤ max P` (the arithmetic is done in a
+type of at least `int`'s width, the base is at most 36) all five intermediate results are values of `P` -/
+theorem negative_branch_in_range (P : IntTy) (v : Int) (base : Nat) (hb : 2 ≤ base) (hbm : (base : Int) ≤ P.max)
+    (hr : P.InRange v) (hv : v < 0) :
+    P.InRange (v.tdiv base) ∧ P.InRange (-(v.tdiv base)) ∧ P.InRange (v.tdiv base * base) ∧
+    P.InRange (v - v.tdiv base * base) ∧ P.InRange (-(v - v.tdiv base * base)) ∧
+    0 ≤ -(v - v.tdiv base * base) ∧ -(v - v.tdiv base * base) < base := by
+  obtain ⟨h1, h2⟩ := hr
+  have hl := lowest_cases P
+  have hdm := Int.mul_tdiv_add_tmod v base
+  have hd3 : v.tdiv (base : Int) ≤ 0 := by
+    have : 0 ≤ (-v).tdiv (base : Int) := Int.tdiv_nonneg (by omega) (by omega)
+    rw [Int.neg_tdiv] at this; omega
+  have hm3 : v.tmod (base : Int) ≤ 0 := by
+    have : 0 ≤ (-v).tmod (base : Int) := Int.tmod_nonneg _ (by omega)
+    rw [Int.neg_tmod] at this; omega
+  have hm4 : -(base : Int) < v.tmod base := by
+    have : (-v).tmod (base : Int) < base := Int.tmod_lt_of_pos _ (by omega)
+    rw [Int.neg_tmod] at this; omega
+  have hc : v.tdiv (base : Int) * base = (base : Int) * v.tdiv base := Int.mul_comm _ _
+  -- 2·|q| ≤ base·|q| ≤ |v|
+  have hq2 : (base : Int) * v.tdiv base ≤ 2 * v.tdiv base :=
+    Int.mul_le_mul_of_nonpos_right (by omega) hd3
+  rw [hc]
+  unfold IntTy.InRange
+  generalize (base : Int) * v.tdiv base = qb at *
+  omega
+
+example : i32.InRange (-2147483648) ∧ (-2147483648 : Int) < 0 ∧ ((36 : Nat) : Int) ≤ i32.max := by decide
+
+/-- `to_chars_capacity<T>{}(base)` cells are enough for EVERY value of `T` (any width; the sign is counted) in EVERY base
 2…36: the fixed-capacity variants of integers (`to_chars_static<Base>`, `operator<<`) always succeed -/
 theorem integer_capacity_suffices (T : IntTy) (v : Int) (base : Nat) (hb : 2 ≤ base ∧ base ≤ 36)
-    (hbits : 1 ≤ T.bits) (hr : T.InRange v) (hm : ¬ MostNegative T v) :
+    (hbits : 1 ≤ T.bits) (hr : T.InRange v) :
     ∃ r, intToChars T (Buf.fresh (intCapacityB T base)) v base = .ok r ∧ r.ok = true := by
   have hu : T.signed = false → 0 ≤ v := by
     intro hs; have := hr.1; simp [IntTy.lowest, hs] at this; exact this
-  obtain ⟨r, h1, h2⟩ := intToChars_ok T (intCapacityB T base) v base hb hm hu
+  obtain ⟨r, h1, h2⟩ := intToChars_ok T (intCapacityB T base) v base hb hu
   exact ⟨r, h1, by rw [h2]; exact decide_eq_true (intText_le_capacityB T v base hb.1 hr hbits)⟩
 
-example : i64.InRange (-9223372036854775807) ∧ ¬ MostNegative i64 (-9223372036854775807) := by decide
+example : i64.InRange (-9223372036854775808) ∧ 1 ≤ i64.bits := by decide
 
 /-- for base ten the capacity is the value it always had (`to_chars_capacity<T>{}()`) -/
 theorem integer_capacity_decimal_unchanged (T : IntTy) : intCapacityB T 10 = intCapacity T := by
@@ -83,12 +104,12 @@ theorem integer_capacity_decimal_unchanged (T : IntTy) : intCapacityB T 10 = int
 
 /-- hence `to_chars_static<Base>(value)` returns the canonical numeral… -/
 theorem integer_static_succeeds (T : IntTy) (v : Int) (base : Nat) (hb : 2 ≤ base ∧ base ≤ 36)
-    (hbits : 1 ≤ T.bits) (hr : T.InRange v) (hm : ¬ MostNegative T v) :
+    (hbits : 1 ≤ T.bits) (hr : T.InRange v) :
     ∃ t, intStaticTextBase T base v = .ok t ∧ 0 < t.length := by
   have hu : T.signed = false → 0 ≤ v := by
     intro hs; have := hr.1; simp [IntTy.lowest, hs] at this; exact this
-  obtain ⟨r, h1, h2⟩ := integer_capacity_suffices T v base hb hbits hr hm
-  obtain ⟨r', h1', hc⟩ := intToChars_contract T (intCapacityB T base) v base hb hm hu
+  obtain ⟨r, h1, h2⟩ := integer_capacity_suffices T v base hb hbits hr
+  obtain ⟨r', h1', hc⟩ := intToChars_contract T (intCapacityB T base) v base hb hu
   rw [h1] at h1'; cases h1'
   obtain ⟨p, hp, hp0, hple, _⟩ := hc.2.2.1 h2
   have hlen : r.buf.cells.length = intCapacityB T base := by rw [hc.2.1, hc.1]
@@ -109,6 +130,35 @@ theorem static_capacity_unrepaired_refuted :
 
 theorem static_capacity_repaired_witness :
     intStaticTextBase i32 2 2147483647 = .ok (List.replicate 31 '1') := by decide +kernel
+
+/-- the negative branch as first written negated the value: the most negative value of a type of `int`'s width or
+more failed `CNL_ASSERT(-max <= value)` (undefined negation in a release build), whatever the buffer … -/
+theorem most_negative_unrepaired_refuted :
+    MostNegative i32 (-2147483648) ∧
+    intToCharsOrig i32 (Buf.fresh 2) (-2147483648) 10 = .unreachable "assert: most negative value" ∧
+    intToCharsOrig i64 (Buf.fresh 20) (-9223372036854775808) 10 = .unreachable "assert: most negative value" := by
+  decide +kernel
+
+/-- … and in general: every `MostNegative` value on a buffer of at least two cells -/
+theorem most_negative_unrepaired_general (T : IntTy) (len : Nat) (v : Int) (base : Nat)
+    (hb : 2 ≤ base ∧ base ≤ 36) (hm : MostNegative T v) (hl : 2 ≤ len) :
+    intToCharsOrig T (Buf.fresh len) v base = .unreachable "assert: most negative value" := by
+  have hbb : ¬ (base < 2 ∨ base > 36) := by omega
+  have hP : 0 ≤ (promote T).max := (sigOK_bounds (promote T)).2
+  have hv : v ≠ 0 := by have := hm.2; omega
+  have hn : T.signed = true ∧ v < 0 := ⟨hm.1, by have := hm.2; omega⟩
+  have hl2 : ¬ (Buf.fresh len).len < 2 := by simp only [Buf.fresh]; omega
+  have h0 : 0 < (Buf.fresh len).len := by simp only [Buf.fresh]; omega
+  unfold intToCharsOrig
+  rw [if_neg hbb, if_neg hv, if_pos hn, if_neg hl2]
+  simp only [Buf.write, h0, if_true, hm.2]
+
+/-- the same calls on the repaired code: the numeral, or `value_too_large` with the pointer at `last` -/
+theorem most_negative_repaired_witness :
+    intToChars i32 (Buf.fresh 2) (-2147483648) 10 = .ok ⟨some 2, false, ⟨2, [some '-', some '2']⟩⟩ ∧
+    (intToChars i64 (Buf.fresh 20) (-9223372036854775808) 10).map TCR.text = .ok "-9223372036854775808".toList ∧
+    intStaticTextBase i32 2 (-2147483648) = .ok ('-' :: '1' :: List.replicate 31 '0') := by
+  decide +kernel
 
 /-- scaled_integer: the repaired selection never fills a layout without digits or beyond the space, for
 every digit count, exponent, exponent-text length and buffer size -/
@@ -151,85 +201,112 @@ theorem scaled_positive_routine (b : Buf) (first : Nat) (ds : List Char) (x : In
 
 example : ("125".toList ≠ []) ∧ (1 ≤ (Buf.fresh 3).len) := by decide
 
+/-- `Radix` is an `int` template parameter and the significand type has at least 64 bits: the side condition
+`10·radix ≤ max` of the theorems below holds for every radix the library can be instantiated with -/
+theorem radix_fits (T : IntTy) (radix : Nat) (h : radix < 2 ^ 31) : 10 * (radix : Int) ≤ (sigTy T).max :=
+  sigTy_radix_fits T radix h
+
+example : 10 * ((16 : Nat) : Int) ≤ (sigTy u64).max ∧ 10 * ((2147483647 : Nat) : Int) ≤ (sigTy i8).max := by decide
+
 /-- the repaired `descale` returns for every input, exponent and input radix `≥ 1` when the significand type is
-signed (an overflowing `significand *= radix` is undefined behaviour there — a value of the model, not a loop) -/
+signed (an overflowing `significand *= radix` would be undefined behaviour there — a value of the model, not a loop) -/
 theorem descale_terminates (S : IntTy) (hs : S.signed = true) (h8 : 8 ≤ S.bits) (input e : Int) (R : Nat)
-    (hR : 1 ≤ R) (hr : S.InRange input) : descale S input e R ≠ .diverges :=
-  Charconv.descale_terminates S hs h8 input e R hR hr
+    (hR : 1 ≤ R) (hRS : 10 * (R : Int) ≤ S.max) (hr : S.InRange input) : descale S input e R ≠ .diverges :=
+  Charconv.descale_terminates S hs h8 input e R hR hRS hr
 
-/-- … and for EVERY significand type, signed or unsigned (`uint64_t`, `unsigned __int128`, wide reps), with a
-non-zero in-range significand of the input's sign: `significand *= radix` neither overflows nor wraps (radix 2…10) -/
+/-- … and for EVERY significand type, signed or unsigned (`uint64_t`, `unsigned __int128`, wide reps), and EVERY
+input radix `≥ 2` (with `10·R ≤ max`), with a non-zero in-range significand of the input's sign: `significand *= radix`
+neither overflows nor wraps, because the headroom test is made for the greater of the two radixes -/
 theorem descale_returns (S : IntTy) (h8 : 8 ≤ S.bits) (input e : Int) (R : Nat)
-    (hR2 : 2 ≤ R) (hR : R ≤ 10) (hr : S.InRange input) (h0 : input ≠ 0) :
+    (hR2 : 2 ≤ R) (hRS : 10 * (R : Int) ≤ S.max) (hr : S.InRange input) (h0 : input ≠ 0) :
     ∃ d, descale S input e R = .ok d ∧ SigOK S (decide (input < 0)) d.sig :=
-  descale_ok S h8 input e R hR2 hR hr h0
+  descale_ok S h8 input e R hR2 hRS hr h0
 
-example : 8 ≤ u64.bits ∧ u64.InRange 18446744073709551615 := by decide
+example : 8 ≤ u64.bits ∧ u64.InRange 18446744073709551615 ∧ 10 * ((36 : Nat) : Int) ≤ u64.max := by decide
 
-/-- termination for every significand type (radix 2…10) -/
+/-- termination for every significand type and every radix -/
 theorem descale_terminates_any (S : IntTy) (h8 : 8 ≤ S.bits) (input e : Int) (R : Nat)
-    (hR2 : 2 ≤ R) (hR : R ≤ 10) (hr : S.InRange input) : descale S input e R ≠ .diverges :=
-  Charconv.descale_terminates_any S h8 input e R hR2 hR hr
+    (hR2 : 2 ≤ R) (hRS : 10 * (R : Int) ≤ S.max) (hr : S.InRange input) : descale S input e R ≠ .diverges :=
+  Charconv.descale_terminates_any S h8 input e R hR2 hRS hr
 
-/-- beyond radix ten the headroom test (made for a multiplication by TEN) no longer protects `significand *= radix`:
-for an unsigned significand the product wraps to zero and the loop never ends
-(`scaled_integer<uint64_t, power<1, 16>>` rep `2^60`; open finding `input_radix_above_ten`) -/
+/-- as found, beyond radix ten the headroom test (made for a multiplication by TEN) did not protect
+`significand *= radix`: for an unsigned significand the product wraps to zero and the loop never ends
+(`scaled_integer<uint64_t, power<1, 16>>` rep `2^60`), for a signed one it overflows; the repaired test
+(`max / 16`) sends both to the division -/
 theorem descale_radix_above_ten_refuted :
-    mulS u64 1152921504606846976 16 = .ok 0 ∧ oobSig u64 false 1152921504606846976 = false ∧
-    mulS i64 576460752303423488 16 = .ub .signedOverflow ∧ oobSig i64 false 576460752303423488 = false := by
+    mulS u64 1152921504606846976 16 = .ok 0 ∧ oobSig u64 10 false 1152921504606846976 = false ∧
+    mulS i64 576460752303423488 16 = .ub .signedOverflow ∧ oobSig i64 10 false 576460752303423488 = false ∧
+    oobSig u64 (headroomRadix 16) false 1152921504606846976 = true ∧
+    oobSig i64 (headroomRadix 16) false 576460752303423488 = true := by
   decide +kernel
 
-/-- … as whole runs of the model: the unsigned case never returns, the signed case is undefined -/
+/-- … as whole runs of the as-found loop (`descaleTenOrig`): the unsigned case never returns, the signed case is
+undefined; the repaired `descale` returns for both, and `to_chars` prints them -/
 theorem radix_above_ten_witnesses :
-    descale u64 1152921504606846976 1 16 = .diverges ∧ descale i64 576460752303423488 1 16 = .ub .signedOverflow := by
+    descaleTenOrig u64 1152921504606846976 1 16 = .diverges ∧
+    descaleTenOrig i64 576460752303423488 1 16 = .ub .signedOverflow ∧
+    scaledToCharsTenOrig u64 1 16 30 1152921504606846976 = .diverges ∧
+    descale u64 1152921504606846976 1 16 = .ok ⟨1844674407370955152, 1, 1⟩ ∧
+    descale i64 576460752303423488 1 16 = .ok ⟨922337203685477568, 1, 1⟩ ∧
+    (scaledToChars u64 1 16 30 1152921504606846976).map TCR.text = .ok "18446744073709551520".toList := by
+  decide +kernel
+
+/-- for the radixes 2…10 the repair changes nothing: the headroom radix is ten as before -/
+theorem descale_unchanged_up_to_ten (S : IntTy) (input e : Int) (R : Nat) (hR : R ≤ 10) :
+    descale S input e R = descaleTenOrig S input e R := by
+  have hH : headroomRadix R = 10 := by unfold headroomRadix; omega
+  unfold descale descaleTenOrig
+  rw [hH]; rfl
+
+/-- the most negative significand: as found `to_chars_static<10>(significand)` failed its assertion
+(`scaled_integer<int64_t, power<0>>` lowest); repaired, it is printed -/
+theorem scaled_most_negative_witnesses :
+    scaledToCharsTenOrig i64 0 2 30 (-9223372036854775808) = .unreachable "assert: most negative value" ∧
+    (scaledToChars i64 0 2 30 (-9223372036854775808)).map TCR.text = .ok "-9223372036854775808".toList := by
   decide +kernel
 
 /-- `cnl::to_chars(first, last, scaled_integer<T, power<e, radix>>)` for EVERY rep type (signed or unsigned
-significand), value, exponent, radix 2…10 and buffer length: the call returns normally and meets the contract
-(`0 < p ≤ len`, exactly `[0,p)` written; or pointer = `last` with `value_too_large`) — or the significand type is
-signed and the descaled significand is its most negative value (the open finding) -/
+significand), value, exponent, radix `≥ 2` and buffer length: the call returns normally and meets the contract
+(`0 < p ≤ len`, exactly `[0,p)` written; or pointer = `last` with `value_too_large`).  No exception is left. -/
 theorem scaled_stays_inside (T : IntTy) (e : Int) (radix len : Nat) (rep : Int)
-    (hr : (sigTy T).InRange rep) (hR2 : 2 ≤ radix) (hR : radix ≤ 10) :
-    (∃ r, scaledToChars T e radix len rep = .ok r ∧ Contract len r) ∨
-    ((sigTy T).signed = true ∧ scaledToChars T e radix len rep = .unreachable "assert: most negative value") :=
-  scaledToChars_stays_inside T e radix len rep hr hR2 hR
+    (hr : (sigTy T).InRange rep) (hR2 : 2 ≤ radix) (hRS : 10 * (radix : Int) ≤ (sigTy T).max) :
+    ∃ r, scaledToChars T e radix len rep = .ok r ∧ Contract len r :=
+  scaledToChars_stays_inside T e radix len rep hr hR2 hRS
 
-example : (sigTy i8).InRange (-104) := by decide
+example : (sigTy i8).InRange (-104) ∧ (sigTy i64).InRange (-9223372036854775808) ∧
+    10 * ((16 : Nat) : Int) ≤ (sigTy i64).max := by decide
 
 /-- the statement that used to be open: UNSIGNED 64/128-bit (and wider) significand types, where `significand *=
-radix` would wrap instead of being undefined — there is no exception at all -/
+radix` would wrap instead of being undefined — every radix of type `int` -/
 def FullScaledContractUnsigned : Prop :=
   ∀ (T : IntTy) (e : Int) (radix len : Nat) (rep : Int), (sigTy T).signed = false → 64 ≤ T.bits →
-    2 ≤ radix → radix ≤ 10 → T.InRange rep →
+    2 ≤ radix → radix < 2 ^ 31 → T.InRange rep →
     ∃ r, scaledToChars T e radix len rep = .ok r ∧ Contract len r
 
 theorem scaled_contract_unsigned : FullScaledContractUnsigned := by
   intro T e radix len rep hS _ hR2 hR hr
-  exact scaledToChars_stays_inside_unsigned T e radix len rep hS (sigTy_range T rep hr) hR2 hR
+  exact scaledToChars_stays_inside_unsigned T e radix len rep hS (sigTy_range T rep hr) hR2 (sigTy_radix_fits T radix hR)
 
 example : (sigTy u64).signed = false ∧ 64 ≤ u64.bits ∧ u64.InRange 18446744073709551615 := by decide
 
 /-- full statement: the capacity of `scaled_integer` is enough for every value, exponent and radix 2…10 -/
 def FullScaledCapacity : Prop :=
   ∀ (T : IntTy) (e : Int) (R : Nat) (rep : Int), 8 ≤ T.bits → e.natAbs < 2 ^ 31 → 2 ≤ R → R ≤ 10 → T.InRange rep →
-    (∃ t, scaledStaticText T e R rep = .ok t) ∨
-    ((sigTy T).signed = true ∧ scaledStaticText T e R rep = .unreachable "assert: most negative value")
+    ∃ t, scaledStaticText T e R rep = .ok t
 
 /-- proved part of `FullScaledCapacity`: NON-NEGATIVE exponents — every rep type, value, exponent `e ≥ 0`, radix
 2…9, and radix ten for digit counts with `1000·digits mod 3321 ≥ 320` (7, 8, 15, 16, 31, 32, 63, 64, 127, 128: every
-built-in rep).  `to_chars_static` / `to_string` / `operator<<` succeed, or the descaled significand is the most
-negative value.  (For radix ten `num_digits_to_binary` can be one bit short — `toBinary_spec` — so that for other
+built-in rep).  `to_chars_static` / `to_string` / `operator<<` succeed for every value (the most negative one included).  (For radix ten `num_digits_to_binary` can be one bit short — `toBinary_spec` — so that for other
 digit counts the fixed layout of the largest values may not fit; the scientific layout then does, which is not
 proved.)  Negative exponents: not proved; a search over 973 620 (type, exponent −300…300, radix, value) cases of
 the model and the per-run sweep at capacity found no failure. -/
 theorem scaled_capacity_suffices_partial (T : IntTy) (e : Int) (R : Nat) (rep : Int)
     (he : 0 ≤ e) (hR2 : 2 ≤ R) (hR : R ≤ 10)
     (hside : R = 10 → 320 ≤ T.digits * 1000 % 3321) (hbits : 1 ≤ T.bits) (hr : T.InRange rep) :
-    (∃ t, scaledStaticText T e R rep = .ok t) ∨
-    ((sigTy T).signed = true ∧ scaledStaticText T e R rep = .unreachable "assert: most negative value") :=
+    ∃ t, scaledStaticText T e R rep = .ok t :=
   scaledStaticText_nonneg_exp T e R rep he hR2 hR hside hbits hr
 
-example : (0 : Int) ≤ 70 ∧ ((10 : Nat) = 10 → 320 ≤ i64.digits * 1000 % 3321) ∧ i64.InRange (-9223372036854775807) := by
+example : (0 : Int) ≤ 70 ∧ ((10 : Nat) = 10 → 320 ≤ i64.digits * 1000 % 3321) ∧ i64.InRange (-9223372036854775808) := by
   decide
 
 end Cnl.C13
